@@ -98,7 +98,7 @@ func genC17(t *rapid.T) *CaseC17 {
 		}
 		if !c.Spatial && rapid.IntRange(0, 2).Draw(t, "list") == 0 {
 			// other voxels of the same column: parts of the main voxel at its ends, its parent, neighbours, copies
-			for i := rapid.IntRange(1, 3).Draw(t, "nOthers"); i > 0; i-- {
+			for i := rapid.IntRange(1, 6).Draw(t, "nOthers"); i > 0; i-- {
 				k := rapid.Int64Range(1, 4).Draw(t, "ok")
 				var o [2]int64
 				switch rapid.IntRange(0, 5).Draw(t, "okind") {
@@ -109,7 +109,7 @@ func genC17(t *rapid.T) *CaseC17 {
 				case 2: // ancestor
 					o = [2]int64{c.V - k, c.F >> uint(k)}
 				case 3:
-					o = [2]int64{c.V, c.F + rapid.Int64Range(-2, 2).Draw(t, "odf")}
+					o = [2]int64{c.V, c.F + rapid.Int64Range(-6, 6).Draw(t, "odf")}
 				case 4: // a descendant somewhere inside
 					o = [2]int64{c.V + k, (c.F << uint(k)) + rapid.Int64Range(0, (1<<uint(k))-1).Draw(t, "oin")}
 				default:
